@@ -151,6 +151,59 @@ R.contract(
     bounded_note="up to 2 listed status codes",
 )
 
+# which filter a link's response key gets, and which bundle a response lands in
+R.contract(ST + "default_status_code", args={"status_codes": Opq("Any")}, abstract_only=True, returns=lambda it, env: ("default-filter", env["status_codes"]),
+           note="own contract above (default_status_code.<locals>.match_default_response)")
+R.contract(ST + "match_status_code", args={"status_code": Opq("Any")}, abstract_only=True, returns=lambda it, env: ("code-filter", env["status_code"]),
+           note="own contract above (match_status_code.<locals>.compare)")
+R.contract(
+    ST + "make_response_filter",
+    prop="C10",
+    args={"status_code": Str, "all_status_codes": Opq("StatusCodes")},
+    raises=[],
+    ensures={
+        # "exact code, NXX wildcard, or default meaning 'no other documented code'": the key `default` gets the complement filter over ALL documented codes, any other key its own matcher
+        "default_key_gets_the_complement_filter": "implies(status_code == 'default', result[0] == 'default-filter' and result[1] is all_status_codes)",
+        "any_other_key_matches_itself": "implies(status_code != 'default', result[0] == 'code-filter' and result[1] == status_code)",
+    },
+)
+
+
+def _matcher_setup(it):
+    from pyvc.verify import locate
+    from pyvc.interp import SpecCallable
+
+    _, _, outer = locate(it, ST + "make_response_matcher")
+    n = it.path.choose([(k, True) for k in (0, 1, 2, 3)], "n-matchers")
+    it.path.bounded_inputs.add("up to 3 (bundle, filter) pairs")
+    matchers = [(f"bundle{i}", SpecCallable(f"filter{i}", "spec:response_filter", None)) for i in range(n)]
+    it.ghost["matchers"] = matchers
+    saved = it.top_target
+    it.top_target = ST + "make_response_matcher"
+    try:
+        res = it.call_function(outer, [matchers], {})
+    finally:
+        it.top_target = saved
+    return res, {}
+
+
+R.contract("spec:response_filter", args={"output": Opq("Any")}, returns=Bool, trusted=True, effects={"answers": "ghost('answers') + [result]"}, note="one of the two filters above")
+R.contract(
+    ST + "make_response_matcher.<locals>.compare",
+    prop="C10",
+    setup=_matcher_setup,
+    args={"result": Opq("Out")},
+    result_name="ret",
+    ghost={"matchers": None, "answers": []},
+    raises=[],
+    ensures={
+        # a response is stored for the FIRST link key (in document order) whose filter accepts it; for none if no filter accepts it
+        "first_accepting_filter_decides": "(ret is None and length(ghost('answers')) == length(ghost('matchers')) and not any(a for a in ghost('answers'))) or "
+                                          "(ret is not None and ghost('answers')[-1] and not any(a for a in ghost('answers')[:-1]) and ret == ghost('matchers')[length(ghost('answers')) - 1][0])",
+    },
+    replayable=False,
+)
+
 # ------------------------------------------------------------------------------------------------- into_step_input: what the link extracted is what the next request is generated with
 INNER = ST + "into_step_input.<locals>.builder.<locals>.inner"
 RES = "schemathesis.core.result:"
